@@ -89,7 +89,7 @@ ENUM_COLS = ['new_flag', 'state', 'kind']
 ENUM_TYPES = [('BOOLEAN', ['FALSE', 'TRUE']), ('STATUS', ['FAILURE', 'INCOMPLETE', 'SUCCESS']),
               ('Kind_t', ['STAR', 'GALAXY', 'QSO', 'SKY_FIBER']), ('ONE', ['ONLY']), ('abc', ['a', 'B', 'c_1', 'FOO'])]
 SEAM_STRINGS = ['', ' ', '\t', '  ', '#', '#a', 'a#b', 'ab#', '# #', ';', 'a;b', 'x;', '{}', 'a{}b', 'a{b}c', 'x{{}}',
-                'a{{}}b', 'a { { } } b', 'x {{}}', '{{}}'[1:] + 'x', ' lead', 'trail ', ' both ', '12345', '-7', '0',
+                'a{{}}b', 'a { { } } b', 'x {{}}', 'a{{{}}', 'a {{{}} b', '}{{}}', '{{}}'[1:] + 'x', ' lead', 'trail ', ' both ', '12345', '-7', '0',
                 'a b', 'a\tb', "it's", 'back\\slash', '\\', 'a\\ b', '\\ ', 'x}', '}', '}{', 'a}b', 'FOO', 'S',
                 'typedef'[1:], 'struct', 'enum {', 'nan', '1e5', '""'[:0] + 'q', ',', '.', '[3]', '<3>', 'a[1]',
                 'null', 'True', "'q'", '$x', '~', '%s', '{0}', 'a=b', 'end\\x'[:-1] + 'y', 'tab\t', '\tt']
@@ -248,6 +248,11 @@ def expected(doc):
                 if c['name'] in em:
                     typ = em[c['name']][0].upper() + suffix
                     np_ = '|S%d' % max(len(x) for x in em[c['name']][1])
+                elif c.get('unsized'):
+                    j = t['cols'].index(c)
+                    vals = [x for r in t['rows'] for x in (r[j] if isinstance(r[j], list) else [r[j]])]
+                    typ = 'char' + suffix + '[]'
+                    np_ = '|S%d' % max([len(x) for x in vals] + [0])
                 else:
                     typ = 'char' + suffix + '[%d]' % int(code[1:])
                     np_ = '|S%d' % int(code[1:])
@@ -340,12 +345,18 @@ def norm_cell_got(b, a):
 # Coq literals
 
 def blit(s):
+    """Byte-string literal.  A Coq string literal (converted by Bytes.bs inside Coq) is used when every byte is
+    printable ASCII / tab / CR / LF: numeral lists are an order of magnitude slower for coqc to read."""
     if isinstance(s, str):
         s = s.encode('latin-1')
+    if len(s) > 3 and all((32 <= c <= 126) or c in (9, 10, 13) for c in s):
+        return '(bs "%s"%%string)' % s.decode('latin-1').replace('"', '""')
     return C.bytes_lit(s)
 
 
-def btype_term(code):
+def btype_term(code, unsized=False):
+    if unsized:
+        return 'TCharU'
     m = {'i2': 'TShort', 'i4': 'TInt', 'i8': 'TLong', 'f4': 'TFloat', 'f8': 'TDouble'}
     if code in m:
         return m[code]
@@ -374,7 +385,7 @@ def doc_term(doc):
                         for e in (doc.get('enums') or [])])
     tabs = []
     for t in doc['tables']:
-        cols = C.coq_list(['(mkcol %s %s %s)' % (blit(c['name']), btype_term(c['code']),
+        cols = C.coq_list(['(mkcol %s %s %s)' % (blit(c['name']), btype_term(c['code'], c.get('unsized')),
                                                   C.optlit(c['arr'], lambda n: '%d' % n)) for c in t['cols']])
         rows = C.coq_list([C.coq_list([cell_term(c, v) for c, v in zip(t['cols'], r)]) for r in t['rows']])
         tabs.append('(mktable %s %s %s)' % (blit(t['name']), cols, rows))
